@@ -100,6 +100,12 @@ CHECKS = {
             "iterations and fixed point demanded",
             "Sampled networks with every observation/cluster type and attribute, frames, removed items; exploration.",
             "DESIGN.md §2 C13", TRUST),
+    "C12": ("relational monitor over the outputs of one run: well-formedness by an independent parser, gama's own result "
+            "readers (readdrv) vs the independent reader, cross-format numbers (text/HTML/Octave/SVG), encodings, and "
+            "the consumers compare-xyz / gama-local-deformation recomputed from the XML",
+            "Generated networks with hostile ids/descriptions/extern values, all --cov-band, both angular units, "
+            "11 languages x 5 encodings; exploration.",
+            "DESIGN.md §2 C12", TRUST),
 }
 
 NOT_APPLICABLE = {}
